@@ -8,9 +8,15 @@ pub fn run(property: &str, tier: &str) -> i32 {
     use std::sync::atomic::Ordering::Relaxed;
     let e1_rule = "explicit-state search: every distinct canonical state (placement, side, rights, ep target, inherited promotion descriptor, capture-mode flag) of the S1 reach graph to the per-root depth limits and of the complete S2 small-scope families; transitions = successors produced by the engine's real generate_moves and compared with the rules oracle";
     match property {
-        "C01" | "C02" | "C05" | "C13" => {
+        "C01" | "C02" | "C13" => {
             let r = e1_posgraph::run(&rep, Focus::for_property(property));
             rep.finish(r.states, r.transitions, r.validated, r.exhaustive, e1_rule)
+        }
+        "C05" => {
+            let r = e1_posgraph::run(&rep, Focus::for_property(property));
+            let (n, m) = crate::e5_pure::c05_sensitivity(&rep);
+            let rule = format!("{}; plus: the 781 addressable hash constants non-zero and pairwise distinct, and every single-component mutation of 5 sample positions through the FEN loader changes the key", e1_rule);
+            rep.finish(r.states + n, r.transitions + m, r.validated, r.exhaustive, &rule)
         }
         "C04" => {
             let r = e1_posgraph::run(&rep, Focus::for_property(property));
@@ -21,8 +27,8 @@ pub fn run(property: &str, tier: &str) -> i32 {
                 "position fen r3k2r/8/8/8/8/8/8/R3K2R w KQkq - 0 1 moves e1c1 e8g8 d1d8",
                 "position fen 4k3/2p1p3/8/3P4/3p4/8/2P1P3/4K3 w - - 0 1 moves e2e4 d4e3",
                 "position fen 4k3/2p1p3/8/3P4/3p4/8/2P1P3/4K3 w - - 0 1 moves c2c4 d4c3 d5d6 c7c5",
-                "position fen r3k3/1P6/8/8/8/8/1p6/R3K3 w Qq - 0 1 moves b7a8q b2a1n",
-                "position fen r3k3/1P6/8/8/8/8/1p6/R3K3 w Qq - 0 1 moves b7b8r b2b1b",
+                "position fen r3k3/1P6/8/8/8/8/1p6/R3K3 w Qq - 0 1 moves b7a8n b2a1n",
+                "position fen r3k3/1P6/8/8/8/8/1p6/R3K3 w Qq - 0 1 moves b7b8n b2b1b",
                 "position fen 1r6/8/8/8/8/8/2k5/K7 w - - 0 1",
                 "position startpos moves e2e4",
                 "position fen 7k/8/8/8/8/8/R7/K7 w - - 0 1 moves a2h2",
